@@ -114,22 +114,37 @@ theorem setup_frame (hash : String → String) (T : Table) (ps : List Port) (c :
       simp only [Generated.Netfilter.setupEnsuresJumpRulesAfterRestore, if_true]
       rw [ensureJumps_frame hash ps T1 c hck]; exact hcf
 
-theorem clean_frame (hash : String → String) (T : Table) (ps : List Port) (c : String)
-    (hc : galaxyChain c = false) : Tbl.get (clean hash T ps).1 c = Tbl.get T c := by
+theorem ensureChains_frame (hash : String → String) (T : Table) (ps : List Port) (c : String)
+    (hc : galaxyChain c = false) : Tbl.get (ensureChains hash T ps) c = Tbl.get T c := by
+  rw [ensureChains_get]
+  have : c ∉ ps.map (chainName hash) := fun h => by
+    have := galaxyChain_of_prefix (names_prefix h); rw [hc] at this; cases this
+  simp [this]
+
+theorem cleanWith_frame (ef : Bool) (hash : String → String) (T : Table) (ps : List Port) (c : String)
+    (hc : galaxyChain c = false) : Tbl.get (cleanWith ef hash T ps).1 c = Tbl.get T c := by
   have hck : c ≠ hostportsChain := (ne_of_not_galaxy hc galaxyChain_hostports).symm
-  have hd := deleteJumps_frame hash ps T c hck
-  unfold clean
+  have h0 : Tbl.get (if ef then ensureChains hash T ps else T) c = Tbl.get T c := by
+    cases ef
+    · rfl
+    · exact ensureChains_frame hash T ps c hc
+  have hd := deleteJumps_frame hash ps (if ef then ensureChains hash T ps else T) c hck
+  unfold cleanWith
   simp only [Generated.Netfilter.cleanDeletesJumpRulesBeforeRestore, if_true, Generated.Netfilter.cleanRestores]
-  cases hdj : deleteJumps hash T ps with
+  cases hdj : deleteJumps hash (if ef = true then ensureChains hash T ps else T) ps with
   | mk T1 oe =>
     rw [hdj] at hd
     cases oe with
-    | some e => exact hd
+    | some e => simp only; rw [hd, h0]
     | none =>
       show Tbl.get (commit (fun _ => true) T1 (cleanBatch hash ps)).1 c = _
       rw [commit_frame (fun _ => true) T1 (cleanBatch hash ps) c
         (fun cmd h => ne_of_not_galaxy hc (cleanBatch_chains hash ps cmd h))]
-      exact hd
+      rw [hd, h0]
+
+theorem clean_frame (hash : String → String) (T : Table) (ps : List Port) (c : String)
+    (hc : galaxyChain c = false) : Tbl.get (clean hash T ps).1 c = Tbl.get T c :=
+  cleanWith_frame _ hash T ps c hc
 
 theorem ensureBasicRules_frame : ∀ (cs : List String) (T : Table) (c : String), c ∉ cs →
     Tbl.get (ensureBasicRules T cs).1 c = Tbl.get T c
